@@ -72,9 +72,17 @@ def _cont():
 _cont.__name__ = "continuation_block"
 
 
+def _imported_flags():
+    b = __import__("bounded.c16", fromlist=["x"]).imported_binding_flags()
+    return {"confirmed": True, "input": "A: type shape_t with `procedure :: area`, a deferred binding and a generic; B: `type, extends(shape_t) :: box_t`", "actual": b,
+            "expected": "the declarations of the inherited bindings as in A's source", "how": "A dumped with dump_modules, B built against it"} if b else None
+
+
 def build(tier, seed):
     set_tier(tier)
-    tasks = [Task(f"{PROP}.S.lower", PROP, "FortranContainer.__init__", lambda: __import__("contracts.plumbing", fromlist=["x"]).lower_after_masking(PROP, lambda: __import__("bounded.c18", fromlist=["x"]).decl_search())),
+    tasks = [standin_task(PROP, "projects.imported_binding_flags", _imported_flags, "ford.external_project.obj2dict / dict2obj (real)",
+                          "bindings a type of B inherits from a type of an external project are declared as in that project's source (generic / deferred flags after the round trip through modules.json)", "1 project pair"),
+             Task(f"{PROP}.S.lower", PROP, "FortranContainer.__init__", lambda: __import__("contracts.plumbing", fromlist=["x"]).lower_after_masking(PROP, lambda: __import__("bounded.c18", fromlist=["x"]).decl_search())),
              a_task(PROP, _ft), a_task(PROP, _fd), Task(f"{PROP}.S.templates", PROP, "templates", lambda: declarations.template_escapes(PROP) + declarations.literal_reinsertion_is_last(PROP)),
              Task(f"{PROP}.S.values", PROP, "name = value pairs", lambda: __import__("contracts.operands", fromlist=["x"]).value_obligations(PROP, replay=lambda: __import__("bounded.c18", fromlist=["x"]).decl_search())),
              Task(f"{PROP}.S.default_not_shared", PROP, "mutable default arguments", lambda: __import__("contracts.plumbing", fromlist=["x"]).mutable_defaults_not_shared(PROP, ("ford.sourceform",), lambda: __import__("bounded.c01", fromlist=["x"]).implicit_attributes())),
